@@ -223,15 +223,33 @@ def gen_translated(parts, vp, vsp):
     # process_child_nodes: [no-child test] [depth test] class.. return find_children_for_parent(..)
     f = find_def(vp, 'process_child_nodes')
     b = body_no_doc(f)
+    final = 'return find_children_for_parent(var_collector, VariableParent(), var_value, variable_type)'
+    kids_guarded = False
+    last = b[4] if len(b) == 5 else None
+    if isinstance(last, ast.Try):
+        # try: return find_children_for_parent(..)  except Exception: [logging..]; return []
+        hs = last.handlers
+        tail = [x for x in (hs[0].body if len(hs) == 1 else [])
+                if not (isinstance(x, ast.Expr) and isinstance(x.value, ast.Call)
+                        and ast.unparse(x.value.func).startswith('logging.'))]
+        if not (len(last.body) == 1 and ast.unparse(last.body[0]) == final and len(hs) == 1 and hs[0].type is not None
+                and ast.unparse(hs[0].type) == 'Exception' and [ast.unparse(x) for x in tail] == ['return []']
+                and not last.orelse and not last.finalbody):
+            raise Untranslatable('process_child_nodes: guard around find_children_for_parent changed shape')
+        kids_guarded = True
+        last_ok = True
+    else:
+        last_ok = last is not None and ast.unparse(last) == final
     ok = (len(b) == 5 and ast.unparse(b[0]) == 'variable_type = type(var_value)'
           and isinstance(b[1], ast.If) and ast.unparse(b[1].test) == 'variable_type.__name__ in NO_CHILD_TYPES'
           and ast.unparse(b[1].body[0]) == 'return []' and not b[1].orelse
           and isinstance(b[2], ast.If) and ast.unparse(b[2].body[0]) == 'return []' and not b[2].orelse
-          and isinstance(b[3], ast.ClassDef)
-          and ast.unparse(b[4]) == 'return find_children_for_parent(var_collector, VariableParent(), var_value, '
-                                   'variable_type)')
+          and isinstance(b[3], ast.ClassDef) and last_ok)
     if not ok:
         raise Untranslatable('process_child_nodes changed shape')
+    parts.append('/-- `process_child_nodes` catches `Exception` around `find_children_for_parent`: a value whose inspection\n'
+                 '    raises is collected without children -/\n'
+                 f'def childrenGuarded : Bool := {"true" if kids_guarded else "false"}\n')
     cls = b[3]
     if not (len(cls.body) == 1 and isinstance(cls.body[0], ast.FunctionDef)
             and same_shape(cls.body[0], 'var_collector.append_child(variable_id, child)')):
@@ -266,6 +284,21 @@ def gen_translated(parts, vp, vsp):
     parts.append(f'def safeStrCatches : String := {lean_str(cls_name)}\n')
     # variable_to_string: which rendering
     f = find_def(vp, 'variable_to_string')
+    len_guarded = [False]
+
+    class Unguard(ast.NodeTransformer):
+        """`try: return <len rendering>  except Exception: return safe_str(var_value)`  ->  `return <len rendering>`"""
+
+        def visit_Try(self, n):
+            hs = n.handlers
+            if (len(n.body) == 1 and isinstance(n.body[0], ast.Return) and 'len(var_value)' in ast.unparse(n.body[0])
+                    and len(hs) == 1 and hs[0].type is not None and ast.unparse(hs[0].type) == 'Exception'
+                    and [ast.unparse(x) for x in hs[0].body] == ['return safe_str(var_value)']
+                    and not n.orelse and not n.finalbody):
+                len_guarded[0] = True
+                return n.body[0]
+            raise Untranslatable('variable_to_string: unexpected try statement')
+    f = Unguard().visit(f)
 
     def ret(e, node):
         src = ast.unparse(node)
@@ -288,6 +321,8 @@ def gen_translated(parts, vp, vsp):
                  'inductive Render\n  | typeFmt (pre post : String)\n  | lenFmt (pre post : String)\n  | safeStr\n'
                  'deriving DecidableEq, Repr\n')
     parts.append(tr.function(f, 'def renderKind (tyName : String) (isDictExact : Bool) : Render'))
+    parts.append('/-- `variable_to_string` catches `Exception` around `len(value)` and falls back to `safe_str` -/\n'
+                 f'def lenGuarded : Bool := {"true" if len_guarded[0] else "false"}\n')
     # find_children_for_parent: order of the kind tests
     f = find_def(vp, 'find_children_for_parent')
     b = body_no_doc(f)
@@ -414,9 +449,23 @@ def gen_scopes(parts, vsp, ac, sa, fc):
     parts.append('/-- `eval_watch` contains failures of evaluation and collection of one watch -/\n'
                  f'def watchCatches : List String := {lean_const(handlers)}\n')
     cap = find_def(ac, 'ActionContext.process_capture_variable')
-    guarded = any(isinstance(n, ast.If) and 'vid is None' in ast.unparse(n.test) for n in ast.walk(cap))
-    parts.append('/-- `process_capture_variable` has the same guard -/\n'
-                 f'def captureLimitGuard : Bool := {"true" if guarded else "false"}\n')
+    cmsg = None
+    for n in ast.walk(cap):
+        if isinstance(n, ast.If) and ast.unparse(n.test) == 'variable_id.vid is None' and len(n.body) == 1 \
+                and isinstance(n.body[0], ast.Return):
+            r = n.body[0].value
+            if isinstance(r, ast.Tuple) and isinstance(r.elts[0], ast.Call) \
+                    and ast.unparse(r.elts[0].func) == 'WatchResult' and len(r.elts[0].args) == 4 \
+                    and ast.unparse(r.elts[0].args[2]) == 'None' and isinstance(r.elts[0].args[3], ast.Constant) \
+                    and ast.unparse(r.elts[1]) == '{}':
+                cmsg = r.elts[0].args[3].value
+        elif isinstance(n, ast.If) and 'vid is None' in ast.unparse(n.test):
+            raise Untranslatable('process_capture_variable: guard of an unknown shape')
+    if any(isinstance(n, ast.Try) for n in ast.walk(cap)):
+        raise Untranslatable('process_capture_variable: unexpected try statement')
+    parts.append('/-- `process_capture_variable` has the same guard (`none` = no guard: the result is attached with no id);\n'
+                 '    a failure of the collection itself is not contained there -/\n'
+                 f'def captureLimitError : Option String := {("some " + lean_str(cmsg)) if cmsg is not None else "none"}\n')
     # frame unwrap
     pf = find_def(fc, 'FrameCollector._process_frame')
     src = [ast.unparse(s) for s in ast.walk(pf) if isinstance(s, (ast.Assign, ast.Delete, ast.If))]
